@@ -64,6 +64,9 @@ def rule_wiring(fx, rep):
                     calls.append((vals[0], vals[1], fr.operand(t['args'][2])))
                     fr.storev(t['dest'], ('msm', len(calls)))
                     return True
+                if nm == 'zero' and c.get('trait') == 'CurveProjective' and not t['args']:
+                    fr.storev(t['dest'], ('identity',))
+                    return True
                 return False
             I = exp.Interp(fx, 'none', extra_transfer=tr)
             try:
@@ -74,6 +77,8 @@ def rule_wiring(fx, rep):
             rep.sites(I.call_sites)
             res = [r for r in res if not (isinstance(r[1], tuple) and r[1] and r[1][0] == 'diverges')]
             want = ('PTS', 'SCS', ('window', Int(min(n1, n2))))
+            if min(n1, n2) == 0 and len(res) == 1 and not calls and res[0][1] == ('identity',):
+                continue        # the empty sum returned directly
             if not (len(res) == 1 and len(calls) == 1 and res[0][1] == ('msm', 1) and calls[0][0] == 'PTS' and calls[0][1] == 'SCS'
                     and isinstance(calls[0][2], tuple) and calls[0][2][0] == 'window' and isinstance(calls[0][2][1], Int) and calls[0][2][1].v == min(n1, n2)):
                 bad.append('lengths (%d, %d): calls %r, returns %r' % (n1, n2, calls, [r[1] for r in res]))
@@ -180,6 +185,96 @@ def _solve_in_span(target, gens):
             f = tgt[c]
             tgt = [x - f * y for x, y in zip(tgt, rows[ri])]
     return all(x == 0 for x in tgt)
+
+
+def _locals_in(x, out):
+    if isinstance(x, dict):
+        if 'l' in x and isinstance(x['l'], int):
+            out.add(x['l'])
+        for v in x.values():
+            _locals_in(v, out)
+    elif isinstance(x, list):
+        for v in x:
+            _locals_in(v, out)
+
+
+def noop_under_identity(I, fr, body, branch, other, events, term=None):
+    """True when, in the current abstract state (the accumulator is the identity), interpreting the arm `branch` and the
+    arm `other` of the switch `term` up to their join point leaves every local that is used outside the two arms with
+    the same value: then taking either arm is the same, whatever the test says."""
+    # join point: the first block on the straight-line continuation of the skipping arm that the other arm reaches
+    sw = next((bi for bi, blk in enumerate(body.blocks) if blk['term'] is term), None)
+
+    def reach_from(x0):
+        seen, todo = set(), [x0]
+        while todo and len(seen) < 200:
+            x = todo.pop()
+            if x in seen or x == sw:
+                continue
+            seen.add(x)
+            todo.extend(body.succ[x])
+        return seen
+    rb = reach_from(branch)
+    join, x = None, other
+    for _ in range(6):
+        if x in rb:
+            join = x
+            break
+        if len(body.succ[x]) != 1:
+            break
+        x = body.succ[x][0]
+    if join is None:
+        return False
+    region, todo = set(), [branch, other]
+    while todo:
+        x = todo.pop()
+        if x in region or x == join:
+            continue
+        region.add(x)
+        todo.extend(body.succ[x])
+        if len(region) > 64:
+            return False
+    assigned, outside = set(), set()
+    for bi, blk in enumerate(body.blocks):
+        if bi in region:
+            for st in blk['stmts']:
+                if st['k'] == 'assign':
+                    assigned.add(st['place']['l'])
+            if blk['term']['k'] == 'call':
+                assigned.add(blk['term']['dest']['l'])
+        else:
+            _locals_in(blk['stmts'], outside)
+            _locals_in(blk['term'], outside)
+    stores = []
+    for arm in (branch, other):
+        n_ev = len(events)
+        saved = I._fork_ctx
+        work, results = [], []
+        try:
+            nf = I._clone_frame(fr)
+            I._run_path(nf, arm, exp.Path(), work, results, stop_at=join)
+        except (exp.NotDerivable, exp.Budget):
+            return False
+        finally:
+            I._fork_ctx = saved
+            del events[n_ev:]
+        if work or len(results) != 1 or not (isinstance(results[0][1], tuple) and results[0][1][0] == 'stopped'):
+            return False
+        stores.append(results[0][1][1].store)
+    st1, st2 = stores
+    for k in set(st1) | set(st2):
+        if isinstance(k, int) and k in assigned and k not in outside:
+            continue
+        a, b_ = st1.get(k), st2.get(k)
+        if a is b_:
+            continue
+        try:
+            same = (a == b_) and type(a) is type(b_)
+        except Exception:
+            same = False
+        if not same and repr(a) != repr(b_):
+            return False
+    return True
 
 
 def rule_bucket_reduction(fx, rep):
@@ -357,12 +452,13 @@ def rule_digit_extraction(fx, rep):
                     nm = c.get('name')
                     res_ = c.get('res') or c['def']
                     args = t['args']
-                    if res_.startswith('std::vec::from_elem') or c['def'] == 'std::vec::from_elem':
+                    if (res_.startswith('std::vec::from_elem') or c['def'] == 'std::vec::from_elem') and isinstance(fr.operand(args[0]), Lin):
+                        # the bucket vector (elements are points); other scratch vectors are ordinary values
                         fr.storev(t['dest'], 'BUCKETS')
                         return True
                     if nm in ('index', 'index_mut') and 'std::vec::Vec' in res_:
                         v = fr.deref_operand(args[0])
-                        if v == 'BUCKETS':
+                        if isinstance(v, str) and v == 'BUCKETS':
                             idx = fr.operand(args[1])
                             events.append(('bucket', nm, idx))
                             key = ('cell', len(events))
@@ -398,6 +494,17 @@ def rule_digit_extraction(fx, rep):
 
                 def switch_hook(fr, t, dv, pth):
                     d = o.operand(t['discr'])
+                    # `if !acc.is_zero() { ...only doublings of acc... }`: when running the guarded branch with the
+                    # accumulator equal to the identity leaves every live local unchanged, skipping it is the same as
+                    # executing it ([2]O = O), so the branch is followed as if it were unconditional
+                    x_, neg_ = dv[1] if isinstance(dv, tuple) and len(dv) == 2 and dv[0] == 'bool' else None, False
+                    while isinstance(x_, tuple) and x_ and x_[0] == 'not':
+                        x_, neg_ = x_[1], not neg_
+                    if isinstance(x_, tuple) and x_ and x_[0] == 'is_zero' and isinstance(x_[1], Lin) and not x_[1].t and len(t['targets']) == 1:
+                        f_edge, t_edge = t['targets'][0][1], t['otherwise']
+                        z_edge, nz_edge = (t_edge, f_edge) if not neg_ else (f_edge, t_edge)
+                        if noop_under_identity(I, fr, b, nz_edge, z_edge, events, t):
+                            return nz_edge
                     # digit != 0 -> follow the accumulating edge; which digit was tested is recorded so that every
                     # accumulation can be matched with a test of its own digit (bucket 0 must stay the identity)
                     if isinstance(dv, tuple) and dv and dv[0] == 'bool' and isinstance(dv[1], tuple) and dv[1][0] == 'digit-nonzero':
